@@ -255,6 +255,97 @@ pub fn exec(rec: &Value, st: &mut State) -> Value {
                 json!({"src": qptsr3(&mut q, c.points(), s), "src_closed": false, "verts": qptsr3(&mut q, r.points(), s), "closed": false, "finite": q.finite})
             }
         }
+        "free" => {
+            // general lattice polylines (irrational edge lengths): stations inside edge i at k/8 of the edge, requested by arc length
+            // computed from the curve's own length table.  Besides the quantised point, DERIVED observations that need no exact
+            // arc length: u = (|d|^2 - 1) * 2^50, par = |d x e| / |e| * 2^40 (e = the lattice edge), fwd = d.e > 0,
+            // res = |p - (v[idx] + fraction * edge[idx])| * 2^30 in lattice units, lares = |length_along - (L[idx] + fraction * dL)| / total * 2^40,
+            // and for 2D curves nu = (|n|^2 - 1) * 2^50, nd = n.d * 2^40
+            let dim = gi(rec, "dim");
+            let s = scale_of(rec);
+            let raw = gvvi(rec, "pts");
+            let req = gvvi(rec, "req");
+            let clampq = |q: &mut Q, v: f64| q.q(v.clamp(-1.0e9, 1.0e9), 1.0);
+            let p50 = (2.0f64).powi(50); let p40 = (2.0f64).powi(40); let p30 = (2.0f64).powi(30);
+            if dim == 2 {
+                let (_, c) = build2(rec);
+                let c = match c { Ok(c) => c, Err(_) => return json!({"ok": false}) };
+                if c.count() != raw.len() + (if c.is_closed() && gb(rec, "fc") { 1 } else { 0 }) { return json!({"ok": true, "n": c.count(), "rows": []}); }
+                let lens = c.lengths().to_vec();
+                let vs = c.points().to_vec();
+                let total = c.length();
+                let rows: Vec<Value> = req.iter().map(|r| {
+                    let (i, k) = (r[0] as usize, r[1] as f64 / 8.0);
+                    let l = lens[i] + k * (lens[i + 1] - lens[i]);
+                    match c.at_length(l) {
+                        None => json!({"some": false}),
+                        Some(st) => {
+                            let (d, n, p, idx, f) = (st.direction().into_inner(), st.normal().into_inner(), st.point(), st.index(), st.fraction());
+                            let e = vs[i + 1] - vs[i];
+                            let ei = vs[(idx + 1).min(vs.len() - 1)] - vs[idx];
+                            let back = vs[idx] + ei * f;
+                            json!({"some": true, "idx": idx, "p": [q.q(p.x / s, QP), q.q(p.y / s, QP), 0],
+                                   "u": clampq(&mut q, (d.norm_squared() - 1.0) * p50), "par": clampq(&mut q, (d.x * e.y - d.y * e.x).abs() / e.norm() * p40),
+                                   "fwd": d.dot(&e) > 0.0, "res": clampq(&mut q, (p - back).norm() / s * p30),
+                                   "lares": clampq(&mut q, (st.length_along() - (lens[idx] + f * (lens[(idx + 1).min(lens.len() - 1)] - lens[idx]))).abs() / total * p40),
+                                   "nu": clampq(&mut q, (n.norm_squared() - 1.0) * p50), "nd": clampq(&mut q, n.dot(&d) * p40)})
+                        }
+                    }
+                }).collect();
+                json!({"ok": true, "n": c.count(), "rows": rows, "finite": q.finite})
+            } else {
+                let (_, c) = build3(rec);
+                let c = match c { Ok(c) => c, Err(_) => return json!({"ok": false}) };
+                if c.count() != raw.len() { return json!({"ok": true, "n": c.count(), "rows": []}); }
+                let lens = c.lengths().to_vec();
+                let vs = c.points().to_vec();
+                let total = c.length();
+                let rows: Vec<Value> = req.iter().map(|r| {
+                    let (i, k) = (r[0] as usize, r[1] as f64 / 8.0);
+                    let l = lens[i] + k * (lens[i + 1] - lens[i]);
+                    match c.at_length(l) {
+                        None => json!({"some": false}),
+                        Some(st) => {
+                            let (d, p, idx, f) = (st.direction().into_inner(), st.point(), st.index(), st.fraction());
+                            let e = vs[i + 1] - vs[i];
+                            let ei = vs[(idx + 1).min(vs.len() - 1)] - vs[idx];
+                            let back = vs[idx] + ei * f;
+                            json!({"some": true, "idx": idx, "p": [q.q(p.x / s, QP), q.q(p.y / s, QP), q.q(p.z / s, QP)],
+                                   "u": clampq(&mut q, (d.norm_squared() - 1.0) * p50), "par": clampq(&mut q, d.cross(&e).norm() / e.norm() * p40),
+                                   "fwd": d.dot(&e) > 0.0, "res": clampq(&mut q, (p - back).norm() / s * p30),
+                                   "lares": clampq(&mut q, (st.length_along() - (lens[idx] + f * (lens[(idx + 1).min(lens.len() - 1)] - lens[idx]))).abs() / total * p40),
+                                   "nu": 0, "nd": 0})
+                        }
+                    }
+                }).collect();
+                json!({"ok": true, "n": c.count(), "rows": rows, "finite": q.finite})
+            }
+        }
+        "simplify_long" => {
+            // long shallow polylines: x = X * 2^kx lattice units (strictly increasing), y / z a few units; the kept vertices are
+            // reported by their (1-based) position in the source listing
+            let dim = gi(rec, "dim");
+            let s = scale_of(rec);
+            let k = (2.0f64).powi(gi(rec, "kx") as i32);
+            let e = gi(rec, "e4") as f64 / 4.0 * s;
+            let raw = gvvi(rec, "pts");
+            let find = |x: f64| -> i64 { raw.iter().position(|p| p[0] as f64 * k * s == x).map(|i| i as i64 + 1).unwrap_or(0) };
+            if dim == 2 {
+                let pts: Vec<Point2> = raw.iter().map(|p| Point2::new(p[0] as f64 * k * s, p[1] as f64 * s)).collect();
+                let c = Curve2::from_points(&pts, tol_of(rec, s), false).expect("root curve");
+                let r = c.simplify(e);
+                let keep: Vec<i64> = r.points().iter().map(|p| find(p.x)).collect();
+                let same = r.points().iter().all(|p| pts.iter().any(|o| o == p));
+                json!({"n_src": c.count(), "n": r.count(), "keep": keep, "verbatim": same, "closed": r.is_closed()})
+            } else {
+                let pts: Vec<Point3> = raw.iter().map(|p| Point3::new(p[0] as f64 * k * s, p[1] as f64 * s, p[2] as f64 * s)).collect();
+                let c = Curve3::from_points(&pts, tol_of(rec, s)).expect("root curve");
+                let r = c.simplify(e);
+                let keep: Vec<i64> = r.points().iter().map(|p| find(p.x)).collect();
+                let same = r.points().iter().all(|p| pts.iter().any(|o| o == p));
+                json!({"n_src": c.count(), "n": r.count(), "keep": keep, "verbatim": same, "closed": false})
+            }
+        }
         "fill_gaps" => {
             let dim = gi(rec, "dim");
             let s = scale_of(rec);
